@@ -273,9 +273,80 @@ def build_matchexpr(spec: dict, sections: dict, log: list, twin: bool = False):
     return text, origins, info
 
 
+def build_matcharm(spec: dict, sections: dict, log: list, twin: bool = False):
+    """kind=matcharm: the block of the match arm whose pattern starts with `first=` inside function `fn=` is extracted
+    and wrapped as `pub fn <as>(<params>) <contract> BLOCK`. The block is the repository's bytes, with the listed rewrites
+    (R15, and `//@replace_let NAME EXPR` = R18: the initializer of `let NAME = ..;` replaced by an assumed-contract call;
+    the original initializer must contain the text given by expect_init=)."""
+    relfile = spec['file']
+    src = read_repo(relfile)
+    it = rsx.find_item(relfile, src, 'fn', spec['fn'], in_impl=spec.get('in_impl'), in_mod=spec.get('in_mod'))
+    toks = it.toks
+    first = [t.text for t in rsx.tokenize(spec['first'])]
+    hit = None
+    for j in range(it.open_tok + 1, it.close_tok - len(first)):
+        if [t.text for t in toks[j:j + len(first)]] == first:
+            k = j + len(first)
+            while k < it.close_tok and toks[k].text != '=>':
+                if toks[k].text in ('(', '[', '{'):
+                    k = rsx.match_close(toks, k)
+                k += 1
+            if k < it.close_tok and toks[k + 1].text == '{':
+                hit = (j, k + 1, rsx.match_close(toks, k + 1))
+                break
+    if hit is None:
+        raise LostAnchor(f"{relfile}: fn {spec['fn']}: match arm starting with `{spec['first']}` with a block body not found")
+    j, o, c = hit
+    edits, applied = [], []
+    # R18: replace the initializer of a named let
+    for name, expr in sections.get(('replace_let',), []):
+        done = False
+        for q in range(o + 1, c):
+            if toks[q].text == 'let' and toks[q + 1].text == name and toks[q + 2].text == '=':
+                e = q + 3
+                while toks[e].text != ';':
+                    if toks[e].text in ('(', '[', '{'):
+                        e = rsx.match_close(toks, e)
+                    e += 1
+                init = src[toks[q + 3].start:toks[e - 1].end]
+                want = spec.get('expect_init')
+                if want and ''.join(want.split()) not in ''.join(init.split()):
+                    raise LostAnchor(f"{relfile}:{it.line_of(toks[q].start)}: initializer of `{name}` no longer contains `{want}`")
+                edits.append(Edit(toks[q + 3].start, toks[e - 1].end, expr, 'R18'))
+                applied.append(f"R18 {relfile}:{it.line_of(toks[q].start)}: initializer of `let {name}` ({init.count(chr(10)) + 1} lines: `{' '.join(init.split())[:80]}..`) -> `{expr}` (assumed-contract accessor)")
+                done = True
+                break
+        if not done:
+            raise LostAnchor(f"{relfile}: `let {name} = ..;` not found in the arm `{spec['first']}`")
+    if ('prelude',) in sections:
+        edits.append(Edit(toks[o].end, toks[o].end, '\n' + sections[('prelude',)].rstrip() + '\n', 'prelude'))
+    rewrites = [r for r in spec.get('rewrites', '').split(',') if r]
+    if 'R15' in rewrites:
+        _rewrite_r15(it, edits, applied, relfile, o, c)
+    edits = [e for e in edits if not any(f is not e and f.start <= e.start and e.end <= f.end and (f.end - f.start) > (e.end - e.start) for f in edits)]
+    body, borg = rsx.apply_edits(src, toks[o].start, toks[c].end, edits)
+    name = spec['as'] + ('__canary' if twin else '')
+    contract = sections.get(('contract',), '')
+    if twin:
+        contract = re.sub(r'\bensures\b', 'ensures false,', contract, count=1) if re.search(r'\bensures\b', contract) else contract.rstrip() + '\n    ensures false,\n'
+    head = f"pub fn {name}({spec['params']})\n{contract.rstrip()}\n"
+    text = head + body + '\n'
+    line0 = it.line_of(toks[j].start)
+    origins = [(relfile, line0)] * head.count('\n') + [(relfile, x) for x in borg] + [(relfile, borg[-1])]
+    applied.insert(0, f"matcharm {relfile}:{line0}: block of the arm `{spec['first']} .. =>` inside fn {spec['fn']} wrapped as fn {spec['as']}({spec['params']})")
+    if not twin:
+        log.extend(applied)
+    info = ItemInfo(ident=spec.get('id', spec['as']) + ('__canary' if twin else ''), kind='fn', file=relfile, name=spec['as'], emitted_name=name,
+                    src_line=line0, out_line=0, out_end_line=0, has_contract=bool(contract.strip()), twin_name=None, rewrites=applied, n_loops=0,
+                    in_impl=None, flags=dict(spec))
+    return text, origins, info
+
+
 def build_item(spec: dict, sections: dict, substs: list, defines: set, log: list, twin: bool = False):
     if spec.get('kind') == 'matchexpr':
         return build_matchexpr(spec, sections, log, twin)
+    if spec.get('kind') == 'matcharm':
+        return build_matcharm(spec, sections, log, twin)
     relfile = spec['file']
     try:
         src = read_repo(relfile)
@@ -833,8 +904,12 @@ def assemble(template: str, defines: set | None = None) -> Assembled:
             missing = only - {n for _, n in names}
             if missing:
                 raise LostAnchor(f'{relfile}: type item(s) not found: {sorted(missing)}')
+            copy_names = set(x for x in spec.get('copy', '').split(',') if x)
             for k, n in names:
                 ispec = {'kind': k, 'file': relfile, 'name': n, 'drop_derive': 'all', 'vis': 'pub'}
+                if n in copy_names:
+                    # plain-data types that the extracted bodies copy out of references keep `Clone, Copy`
+                    ispec = {'kind': k, 'file': relfile, 'name': n, 'strip_derive': 'Debug,Hash,Default,PartialEq,Eq,PartialOrd,Ord', 'vis': 'pub'}
                 text, orgs, info = build_item(ispec, {}, [], defines, log)
                 info.flags['mod_path'] = '::'.join(m for m, _ in mod_stack)
                 start_line = len(out_lines) + 1
@@ -869,6 +944,11 @@ def assemble(template: str, defines: set | None = None) -> Assembled:
                 m = re.match(r'//@(loop|loop_body|before_loop|after_loop)\s+(\d+)\s*$', s2)
                 if m:
                     cur = (m.group(1), int(m.group(2))); sections[cur] = ''
+                    continue
+                m = re.match(r'//@replace_let\s+(\w+)\s+(.+?)\s*$', s2)
+                if m:
+                    sections.setdefault(('replace_let',), [])
+                    sections[('replace_let',)].append((m.group(1), m.group(2)))
                     continue
                 m = re.match(r'//@names\s+(.+?)\s*$', s2)
                 if m:
@@ -922,7 +1002,7 @@ def assemble(template: str, defines: set | None = None) -> Assembled:
             want_twin = tw == 'yes' or (tw not in ('yes', 'no') and tw in defines)
             cs = spec.get('canary', '')
             info.flags['canary_self'] = bool(canary and (cs == 'self' or (cs and cs in defines)))
-            if canary and spec.get('kind', 'fn') in ('fn', 'matchexpr') and want_twin and info.has_contract:
+            if canary and spec.get('kind', 'fn') in ('fn', 'matchexpr', 'matcharm') and want_twin and info.has_contract:
                 text2, orgs2, info2 = build_item(spec, sections, substs, defines, log, twin=True)
                 s2l = len(out_lines) + 1
                 tl2 = text2.split('\n')
